@@ -85,10 +85,18 @@ fn chunking_generic<P: Xof<K>, const K: usize>(seed: &[u8; K], dst: &[u8], binde
     let derived_seed = x.clone().into_seed();
     let mut stream = x.into_seed_stream();
     let mut got = vec![];
-    for r in reads {
-        let mut buf = vec![0xAAu8; *r];
-        stream.fill_bytes(&mut buf);
-        got.extend_from_slice(&buf);
+    for (k, r) in reads.iter().enumerate() {
+        // 4- and 8-byte reads at even positions of the sequence go through the word methods
+        // (little-endian by the rand_core convention), everything else through fill_bytes
+        match (*r, k % 2) {
+            (4, 0) => got.extend_from_slice(&stream.next_u32().to_le_bytes()),
+            (8, 0) => got.extend_from_slice(&stream.next_u64().to_le_bytes()),
+            _ => {
+                let mut buf = vec![0xAAu8; *r];
+                stream.fill_bytes(&mut buf);
+                got.extend_from_slice(&buf);
+            }
+        }
     }
     if got != reference[..total] {
         let i = got.iter().zip(&reference).position(|(a, b)| a != b).unwrap_or(0);
@@ -262,7 +270,7 @@ fn fld() -> BoxedStrategy<Fld> {
 
 fn read_size() -> BoxedStrategy<u16> {
     prop_oneof![
-        8 => proptest::sample::select(vec![0u16, 1, 2, 15, 16, 17, 31, 32, 33, 47, 48, 64, 255, 256]),
+        8 => proptest::sample::select(vec![0u16, 1, 2, 4, 4, 8, 8, 15, 16, 17, 31, 32, 33, 47, 48, 64, 255, 256]),
         3 => 0u16..600,
     ]
     .boxed()
@@ -272,7 +280,7 @@ impl Check for C11 {
     type Case = Case;
     const ID: &'static str = "C11";
     fn rule(&self) -> String {
-        "(chunking) for XofTurboShake128, XofFixedKeyAes128 (trait path and XofFixedKeyAes128Key::with_seed) and XofHmacSha256Aes128: generated seed, tag and binder, generated cut points splitting the tag into parts and the binder into update calls (empty parts included), generated sequence of read sizes from {0,1,2,15,16,17,31,32,33,47,48,64,255,256} ∪ random (total ≤ 8 KiB): concatenated reads = one read of the unsplit construction, into_seed = stream prefix, entry points agree. (sampling) IntoFieldVec on a tape RNG whose element-sized chunks are drawn from {canonical, ≥ p after masking, p−1, p, p+1, high bits set, zero, all-ones}, with enumerated tapes that put a rejected chunk at every slot of the 32-element buffer and runs straddling a refill, for all four fields and output lengths 0..100, against the specified rule (little-endian chunk, clear bits above the modulus length, discard if ≥ p); IdpfValue::generate likewise incl. its read pattern. Non-trivial = ≥ 2 parts and ≥ 2 unaligned reads, or ≥ 1 rejection; distinct by case hash".into()
+        "(chunking) for XofTurboShake128, XofFixedKeyAes128 (trait path and XofFixedKeyAes128Key::with_seed) and XofHmacSha256Aes128: generated seed, tag and binder, generated cut points splitting the tag into parts and the binder into update calls (empty parts included), generated sequence of read sizes from {0,1,2,4,8,15,16,17,31,32,33,47,48,64,255,256} ∪ random (total ≤ 8 KiB; 4- and 8-byte reads alternately through next_u32/next_u64 and fill_bytes): concatenated reads = one read of the unsplit construction, into_seed = stream prefix, entry points agree. (sampling) IntoFieldVec on a tape RNG whose element-sized chunks are drawn from {canonical, ≥ p after masking, p−1, p, p+1, high bits set, zero, all-ones}, with enumerated tapes that put a rejected chunk at every slot of the 32-element buffer and runs straddling a refill, for all four fields and output lengths 0..100, against the specified rule (little-endian chunk, clear bits above the modulus length, discard if ≥ p); IdpfValue::generate likewise incl. its read pattern. Non-trivial = ≥ 2 parts and ≥ 2 unaligned reads, or ≥ 1 rejection; distinct by case hash".into()
     }
     fn strategy(&self, _tier: Tier) -> BoxedStrategy<Case> {
         let chunking = (
@@ -376,10 +384,16 @@ impl Check for C11 {
                             let key = XofFixedKeyAes128Key::new(&parts, &binder.0);
                             let mut st = key.with_seed(&s);
                             let mut got = vec![];
-                            for r in &reads {
-                                let mut buf = vec![0u8; *r];
-                                st.fill_bytes(&mut buf);
-                                got.extend_from_slice(&buf);
+                            for (k, r) in reads.iter().enumerate() {
+                                match (*r, k % 2) {
+                                    (4, 1) => got.extend_from_slice(&st.next_u32().to_le_bytes()),
+                                    (8, 1) => got.extend_from_slice(&st.next_u64().to_le_bytes()),
+                                    _ => {
+                                        let mut buf = vec![0u8; *r];
+                                        st.fill_bytes(&mut buf);
+                                        got.extend_from_slice(&buf);
+                                    }
+                                }
                             }
                             if got != reference[..got.len()] {
                                 obs.fail("fixed-key-entry-points-differ", "XofFixedKeyAes128Key::with_seed stream differs from the Xof trait path");
